@@ -164,7 +164,10 @@ class _Sym:
         if pattern is not None:
             p = pattern(i)
             kw["patterns"] = [p] if not isinstance(p, list) else p
-        return z3.ForAll([i], z3.Implies(z3.And(lo <= i, i < hi), body), **kw)
+        try:
+            return z3.ForAll([i], z3.Implies(z3.And(lo <= i, i < hi), body), **kw)
+        except z3.Z3Exception:  # e.g. the pattern contains an `ite`: fall back to inferred triggers
+            return z3.ForAll([i], z3.Implies(z3.And(lo <= i, i < hi), body))
 
     def forall_key(self, ty: Ty, fn: Callable, pattern=None):
         k = z3.Const(fresh_name("qk"), ty.sort())
@@ -175,7 +178,10 @@ class _Sym:
         if pattern is not None:
             p = pattern(unwrap(Val(ty, k)))
             kw["patterns"] = [p] if not isinstance(p, list) else p
-        return z3.ForAll([k], body, **kw)
+        try:
+            return z3.ForAll([k], body, **kw)
+        except z3.Z3Exception:
+            return z3.ForAll([k], body)
 
     # options / unions
     def is_none(self, x):
